@@ -643,6 +643,17 @@ class Interp:
             return VSuper(fr.cls, fr.locals.get("self", fr.locals.get("cls")))
         if isinstance(f, ast.Name) and f.id == "cast" and len(node.args) == 2:
             return self.ev(node.args[1], fr)
+        if isinstance(f, ast.Name) and f.id == "implies" and len(node.args) == 2 and fr.func == "<spec>":
+            a = ops.truth(self, self.ev(node.args[0], fr))
+            if a.c is False:
+                return TRUE
+            if a.c is True:
+                return ops.truth(self, self.ev(node.args[1], fr))
+            try:
+                b = ops.truth(self, self._under(a.t, node.args[1], fr))
+            except _InfeasibleBranch:
+                return TRUE
+            return VBool(t=z3.Implies(a.t, b.term()))
         if isinstance(f, ast.Name) and f.id == "old" and self.contracts is not None:
             return self.contracts.eval_old(self, node, fr)
         if isinstance(f, ast.Attribute) and f.attr in ("append", "extend") and isinstance(f.value, (ast.Name, ast.Attribute)):
